@@ -56,6 +56,14 @@ CHECKS = {
   "created for the victim left (confirmed stable across two dumps), bystander undisturbed; with Ufs no descriptor into the tree remains. Held on the enumerated cut points.",
   "goroutines attributed by creation after a baseline dump; leak = same library frame in two dumps after close.exit was observed",
   "DESIGN.md §5 C11"),
+ "C12": ("srvlab", "exploration",
+  "wire monitor over a configuration grid: negotiated limits recomputed independently and asserted on every frame the server sends",
+  "Server msize x client msize x server dialect x version string grid; the Rversion is compared with min()/refusal/dialect rules, then every reply of a session through recycled buffers "
+  "(attach, stat straddling msize, walks of 0..16 qids, reads up to the limit, long implementation errors) is measured on the wire against the negotiated msize and decoded in the negotiated dialect "
+  "only; announced frame sizes below a header or above msize must drop the connection without invocation while another connection works; Ufs variant for real stat replies. Held on the grid run. "
+  "The client half (Connect adopts min msize / dialect) is checked by the clntlab engine cases.",
+  "one Tversion per connection; trusts the wire codec",
+  "DESIGN.md §5 C12"),
  "C04": ("srvlab", "exploration",
   "online reference-model monitor: every request/reply of sequential histories judged against an executable fid-table model, plus invocation/FidDestroy log of a scripted implementation",
   "The real server framework runs in-process with a scripted implementation over scripted in-memory connections; each step of (a) all (fid state x request x outcome) transitions on fresh "
